@@ -128,17 +128,19 @@ def gen_fn(rng, desc, args, structural, nsteps, want_obj):
   return fn, d
 
 
-def gen_struct_edit(rng, desc, args):
+def gen_struct_edit(rng, desc, args, prefer_rebind=False):
   """a function with exactly one edit that changes the structure of the bound graph (or which Variable an attribute holds)"""
   ps = paths_of(desc, args)
   nodes = [(p, i) for p, k, i in ps if k == 'node']
   if not nodes:
     return None
-  p, i = rng.choice(nodes)
+  has_var = lambda i: any(v[0] == 'ref' and desc['objs'][v[1]]['kind'] == 'var' for _, v in desc['objs'][i]['attrs'])
+  with_vars = [(p, i) for p, i in nodes if has_var(i)]
+  p, i = rng.choice(with_vars if prefer_rebind and with_vars else nodes)
   attrs = desc['objs'][i]['attrs']
   varattrs = [(k, v) for k, v in attrs if v[0] == 'ref' and desc['objs'][v[1]]['kind'] == 'var']
   free = [k for k in GP.ATTRS if k not in [a for a, _ in attrs]]
-  r = rng.random()
+  r = rng.random() * (0.5 if prefer_rebind else 1.0)
   if r < 0.6 and varattrs:
     k, v = rng.choice(varattrs)      # re-bind to a fresh Variable of the same type and metadata: the graphdef differs only in which object it is
     o = desc['objs'][v[1]]
@@ -213,15 +215,15 @@ def run(chk):
           fns.append(f)
           calls.append({'fn': len(fns) - 1, 'kind': kind, 'k': 1, 'must_raise': True})
           break
-      if kind in ('fori', 'while') and rng.random() < 0.3:
+      if kind in ('fori', 'while') and c == 0 and ((i // len(kinds)) % 2 == 0 or rng.random() < 0.3):
         # a body that changes which object sits where in the carry (ping-pong buffers) or re-binds / adds / removes an attribute:
         # nnx may refuse it, but may never accept it and differ from the unrolled loop
         rot = 0
-        if len(set(args)) > 1 and rng.random() < 0.5:
+        if len(set(args)) > 1 and rng.random() < 0.4:
           f, _ = gen_fn(rng, d, args, False, rng.randint(1, 3), False)
           rot = rng.randint(1, len(args) - 1)
         else:
-          f = gen_struct_edit(rng, d, args)
+          f = gen_struct_edit(rng, d, args, prefer_rebind=rng.random() < 0.6)
         if f is not None:
           fns.append(f)
           calls.append({'fn': len(fns) - 1, 'kind': kind, 'k': rng.randint(1, 3), 'rot': rot, 'refuse_ok': True})
@@ -357,6 +359,11 @@ Definition chk (c : heap * list value * list (fn * nat * bool * option obs_t)) :
         chk.violation('oracle', 'nnx.%s and the eager call differ after a function that edits the metadata of a Variable (%s), call %d: returned value, the Variable\'s value / metadata, or '
                       'the caller\'s object is not the one carrying the change' % (c['kind'], c['edits'], i + 1), {'case': c, 'observed': r})
         break
+  for r in common.run_impl('impl_c04.py', {'loop_structure': True}, timeout=900)['loop_structure']:
+    chk.count({'loop_structure': {k: r[k] for k in ('edit', 'form', 'k')}}, True)
+    if 'refused' not in r['got'] and r['got'] != r['eager']:
+      chk.violation('oracle', 'nnx.%s_loop accepted a body that changes which object an attribute holds (%s) and left the caller\'s objects in another state than the unrolled Python loop '
+                    '(values, or which of the caller\'s objects carry them)' % (r['form'], r['edit']), r)
   pr = common.run_impl('impl_c04.py', {'probe': True})
   for key, what in (('F16-cached-partial-stale', 'nnx.cached_partial(nnx.jit(step), m) binds a clone of m: an attribute the caller adds to m between calls is ignored, and after the caller '
                      're-binds m.w later calls keep updating the old Variable (eager sees both)'),
